@@ -5,7 +5,7 @@
    Model (C10_Model.v): bstep / brun = BufferX method by method over the unread bytes; rstep / rrun = ReaderX over a
    source = (chunks still to deliver, "last data arrives with io.EOF"); enc_op = the bytes a typed write appends. *)
 From Coq Require Import List Bool ZArith.
-Require Import LE Varint C10_Model C10_Monitor C10_Codec C10_Proofs C10_Stream C10_Large C10_Check.
+Require Import LE Varint C10_Model C10_Monitor C10_Codec C10_Proofs C10_Stream C10_Large C10_Reuse C10_Check.
 Import ListNotations.
 Open Scope Z_scope.
 
@@ -39,6 +39,19 @@ Proof. exact failed_write_identity. Qed.
 Theorem c10_roundtrip_with_refused : forall ws, forallb is_write ws = true -> forallb valid ws = true ->
   brun [] (ws ++ map reader_of (filter accepted ws)) = (map wout ws ++ map val_of (filter accepted ws), []).
 Proof. exact roundtrip_with_refused. Qed.
+
+(* re-use of one buffer: Reset is the empty buffer, so what follows a Reset does not depend on anything before it ... *)
+Theorem c10_reset_independent : forall a b bs,
+  brun bs (a ++ XReset :: b) = (fst (brun bs a) ++ ODone :: fst (brun [] b), snd (brun [] b)).
+Proof. exact reset_independent. Qed.
+(* ... and a history of messages separated by Reset is the concatenation of independent per-message runs on a fresh buffer *)
+Theorem c10_messages_independent : forall msgs bs,
+  fst (brun bs (flat_map (fun m => XReset :: m) msgs)) = flat_map (fun m => ODone :: fst (brun [] m)) msgs.
+Proof. exact messages_independent. Qed.
+(* on every history of one buffer the FIFO monitor holds: empty after Reset, known lengths stay true, refused writes and
+   rewrites keep the length, every matching read returns the oldest value written and not yet read *)
+Theorem c10_reuse_monitor : forall ops, reuse_ok ops (map dig (fst (brun [] ops))) = true.
+Proof. exact reuse_sound. Qed.
 
 (* one codec at a time *)
 Theorem c10_read_write : forall w rest, is_write w = true -> wok w = true ->
@@ -172,6 +185,9 @@ Print Assumptions c10_reads_leave_continuation.
 Print Assumptions c10_writes_append.
 Print Assumptions c10_failed_write_identity.
 Print Assumptions c10_roundtrip_with_refused.
+Print Assumptions c10_reset_independent.
+Print Assumptions c10_messages_independent.
+Print Assumptions c10_reuse_monitor.
 Print Assumptions c10_read_write.
 Print Assumptions c10_uvarint_roundtrip.
 Print Assumptions c10_zigzag_roundtrip.
